@@ -441,6 +441,7 @@ def c06(tier):
     sm.sm6(P, C)
     # auxiliary values survive the round trip only if write_key refuses what a card cannot hold
     ax.ks1(P, C)
+    ax.ks2(P, C)
     ax.uw3(P, C)
     ax.km2(P, C)
     ax.fs5b(P, C)
